@@ -264,7 +264,12 @@ fn build_simple(spec: &str) -> Option<Command> {
     let name = unhex_str(parts.next()?)?;
     let mut c = Command::build(&name).ok()?;
     for a in parts {
-        c.add_argument(&*unhex_str(a)?).ok()?;
+        if let Some(raw) = a.strip_prefix('~') {
+            // an argument that renders itself verbatim (a user-defined Argument, a hand-made Tag::Other)
+            c.add_argument(Raw(unhex(raw))).ok()?;
+        } else {
+            c.add_argument(&*unhex_str(a)?).ok()?;
+        }
     }
     Some(c)
 }
